@@ -250,8 +250,9 @@ pub fn eval_bytes<E: EndianParse>(f: &ElfBytes<'_, E>, q: &Q) -> QR {
     match q {
         Q::Ehdr => dg_ehdr(&mut d, &f.ehdr),
         Q::Counts => {
-            d.u(f.section_headers().map(|t| t.len() as u64 + 1).unwrap_or(0));
-            d.u(f.segments().map(|t| t.len() as u64 + 1).unwrap_or(0));
+            // element counts only: the stream parser does not distinguish "absent" from "empty"
+            d.u(f.section_headers().map(|t| t.len() as u64).unwrap_or(0));
+            d.u(f.segments().map(|t| t.len() as u64).unwrap_or(0));
         }
         Q::Shdr(i) => dg_shdr(&mut d, &shdr(*i)?),
         Q::Phdr(i) => dg_phdr(&mut d, &phdr(*i)?),
